@@ -125,6 +125,11 @@ func (s *BadSmellListener) EnterInterfaceMethodDeclaration(ctx *InterfaceMethodD
 				paramValue := paramContext.VariableDeclaratorId().(*VariableDeclaratorIdContext).Identifier().GetText()
 				methodParams = append(methodParams, core_domain.CodeProperty{TypeValue: paramType, TypeType: paramValue})
 			}
+			if last, ok := allFormal.LastFormalParameter().(*LastFormalParameterContext); ok {
+				// a variable-arity parameter (`String... rest`) is a parameter too
+				paramValue := last.VariableDeclaratorId().(*VariableDeclaratorIdContext).Identifier().GetText()
+				methodParams = append(methodParams, core_domain.CodeProperty{TypeValue: last.TypeType().GetText() + "...", TypeType: paramValue})
+			}
 		}
 	}
 
@@ -199,6 +204,11 @@ func (s *BadSmellListener) EnterMethodDeclaration(ctx *MethodDeclarationContext)
 				methodParams = append(methodParams, core_domain.CodeProperty{TypeValue: paramType, TypeType: paramValue})
 
 				localVars[paramValue] = paramType
+			}
+			if last, ok := allFormal.LastFormalParameter().(*LastFormalParameterContext); ok {
+				// a variable-arity parameter (`String... rest`) is a parameter too
+				paramValue := last.VariableDeclaratorId().(*VariableDeclaratorIdContext).Identifier().GetText()
+				methodParams = append(methodParams, core_domain.CodeProperty{TypeValue: last.TypeType().GetText() + "...", TypeType: paramValue})
 			}
 		}
 	}
